@@ -340,3 +340,496 @@ Proof.
   - destruct Sf; congruence.
   - destruct Sf; congruence.
 Qed.
+
+(* ---------- scalar readers ---------- *)
+Lemma read_hex_quoted_props n l :
+  safe (read_hex_quoted n l) /\
+  (forall bs r, read_hex_quoted n l = Ok (bs, r) -> (length r < length l)%nat /\ len bs = n).
+Proof.
+  unfold read_hex_quoted.
+  dres (verify_char 34 l) (verify_char_safe 34 l) r1 E1.
+  apply verify_char_len in E1.
+  destruct (len r1 <=? 2 * n) eqn:El; [split; [auto with safe|discriminate]|].
+  pose proof (read_hex_total (take (2 * n) r1) n) as Hs.
+  destruct (read_hex (take (2 * n) r1) n) as [bs| | |] eqn:Eh; cbn [bind].
+  2: split; [auto with safe|discriminate].
+  2-3: destruct Hs; congruence.
+  dres (verify_char 34 (drop (2 * n) r1)) (verify_char_safe 34 (drop (2 * n) r1)) r2 E2.
+  apply verify_char_len in E2. pose proof (drop_len_nat (2 * n) r1).
+  split; [auto with safe|]. intros bs0 r [= <- <-]. split; [lia|].
+  unfold read_hex in Eh. destruct (len (take (2 * n) r1) =? 2 * n) eqn:E3; [|discriminate].
+  apply read_hex_pairs_ok in Eh. destruct Eh as [_ L]. apply N.eqb_eq in E3. lia.
+Qed.
+
+Lemma read_digits_props bound : forall l v any,
+  safe (read_digits l v any bound) /\
+  (forall v' any' r, read_digits l v any bound = Ok (v', any', r) -> (length r <= length l)%nat /\ (any' = true -> any = true \/ (length r < length l)%nat)).
+Proof.
+  induction l as [|c r IH]; intros v any; cbn [read_digits].
+  - split; [auto with safe|]. intros v' any' r0 [= _ <- <-]. split; [lia|auto].
+  - destruct (is_digit c).
+    + destruct (bound <? v * 10 + (c - 48)); [split; [auto with safe|discriminate]|].
+      destruct (IH (v * 10 + (c - 48)) true) as [Sf L]. split; [exact Sf|].
+      intros v' any' r0 H. destruct (L _ _ _ H) as [L1 _]. cbn [length]. split; [lia|]. intros _. right. lia.
+    + split; [auto with safe|]. intros v' any' r0 [= _ <- <-]. split; [lia|auto].
+Qed.
+Lemma read_u64_props l : safe (read_u64 l) /\ (forall v r, read_u64 l = Ok (v, r) -> (length r < length l)%nat).
+Proof.
+  unfold read_u64. destruct (read_digits_props 18446744073709551615 l 0 false) as [Sf L].
+  destruct (read_digits l 0 false 18446744073709551615) as [[[v any] r]| | |] eqn:E; cbn [bind].
+  - destruct any; [|split; [auto with safe|discriminate]]. split; [auto with safe|].
+    intros v0 r0 [= <- <-]. destruct (L _ _ _ eq_refl) as [_ H]. destruct (H eq_refl); [discriminate|assumption].
+  - split; [auto with safe|discriminate].
+  - destruct Sf; congruence.
+  - destruct Sf; congruence.
+Qed.
+Lemma read_kind_props l : safe (read_kind l) /\ (forall v r, read_kind l = Ok (v, r) -> (length r < length l)%nat).
+Proof.
+  unfold read_kind. destruct (read_digits_props 65535 l 0 false) as [Sf L].
+  destruct (read_digits l 0 false 65535) as [[[v any] r]| | |] eqn:E; cbn [bind].
+  - destruct any; [|split; [auto with safe|discriminate]]. split; [auto with safe|].
+    intros v0 r0 [= <- <-]. destruct (L _ _ _ eq_refl) as [_ H]. destruct (H eq_refl); [discriminate|assumption].
+  - split; [auto with safe|discriminate].
+  - destruct Sf; congruence.
+  - destruct Sf; congruence.
+Qed.
+
+Lemma read_content_props l out after_tags :
+  safe (read_content l out after_tags) /\
+  (forall r out', read_content l out after_tags = Ok (r, out') -> (length r < length l)%nat /\ len out' = len out).
+Proof.
+  unfold read_content.
+  dres (verify_char 34 l) (verify_char_safe 34 l) r1 E1.
+  apply verify_char_len in E1.
+  destruct (len out <? after_tags + 4); [split; [auto with safe|discriminate]|].
+  destruct (json_unescape r1 (len out - (after_tags + 4))) as [[inlen s]| | |] eqn:Eu; cbn [bind].
+  2: split; [auto with safe|discriminate].
+  2-3: exfalso; pose proof (unescape_safe r1 (len out - (after_tags + 4))) as [? ?]; congruence.
+  dres (put out (after_tags + 4) s) (put_safe out (after_tags + 4) s) o1 E2. apply put_len in E2.
+  dres (verify_char 34 (drop inlen r1)) (verify_char_safe 34 (drop inlen r1)) r2 E3.
+  apply verify_char_len in E3. pose proof (drop_len_nat inlen r1).
+  dres (put o1 after_tags (le32 (len s))) (put_safe o1 after_tags (le32 (len s))) o2 E4. apply put_len in E4.
+  dres (put o2 0 (le32 (after_tags + 4 + len s))) (put_safe o2 0 (le32 (after_tags + 4 + len s))) o3 E5. apply put_len in E5.
+  split; [auto with safe|]. intros r out' [= <- <-]. split; [lia|congruence].
+Qed.
+
+(* ---------- parse_json_event ---------- *)
+Lemma len_take_drop_glue (out tout : bytes) : 144 <= len out -> len tout = len (drop 144 out) -> len (take 144 out ++ tout) = len out.
+Proof. intros H1 H2. rewrite len_app, len_take, H2, len_drop. lia. Qed.
+
+Lemma event_member_props st l :
+  152 <= len (ev_out st) ->
+  safe (event_member st l) /\
+  (forall st' r, event_member st l = Ok (st', r) -> (length r < length l)%nat /\ len (ev_out st') = len (ev_out st)).
+Proof.
+  intros Hout. unfold event_member.
+  assert (Hd : forall k, (length (drop k l) <= length l)%nat) by (intros; apply drop_len_nat).
+  repeat match goal with |- context [if starts_with ?k l then _ else _] => destruct (starts_with k l) eqn:? end.
+  - (* id *)
+    destruct (has_bit _ _); [split; [auto with safe|discriminate]|].
+    dres (eat_colon_ws (drop 3 l)) (eat_colon_ws_safe (drop 3 l)) r1 E1. apply eat_colon_ws_len in E1. specialize (Hd 3).
+    destruct (read_hex_quoted_props 32 r1) as [Sf L].
+    destruct (read_hex_quoted 32 r1) as [[bs r2]| | |] eqn:Eh; cbn [bind]; [|split; [auto with safe|discriminate]|destruct Sf; congruence|destruct Sf; congruence].
+    destruct (L _ _ eq_refl) as [L1 L2].
+    dres (put_raw (ev_out st) 16 bs) (put_raw_safe (ev_out st) 16 bs ltac:(lia)) o1 E2. apply put_raw_len in E2.
+    split; [auto with safe|]. intros st' r [= <- <-]. cbn [ev_out]. split; [lia|exact E2].
+  - (* sig *)
+    destruct (has_bit _ _); [split; [auto with safe|discriminate]|].
+    dres (eat_colon_ws (drop 4 l)) (eat_colon_ws_safe (drop 4 l)) r1 E1. apply eat_colon_ws_len in E1. specialize (Hd 4).
+    destruct (len (ev_out st) <? 144); [split; [auto with safe|discriminate]|].
+    destruct (read_hex_quoted_props 64 r1) as [Sf L].
+    destruct (read_hex_quoted 64 r1) as [[bs r2]| | |] eqn:Eh; cbn [bind]; [|split; [auto with safe|discriminate]|destruct Sf; congruence|destruct Sf; congruence].
+    destruct (L _ _ eq_refl) as [L1 L2].
+    dres (put_raw (ev_out st) 80 bs) (put_raw_safe (ev_out st) 80 bs ltac:(lia)) o1 E2. apply put_raw_len in E2.
+    split; [auto with safe|]. intros st' r [= <- <-]. cbn [ev_out]. split; [lia|exact E2].
+  - (* kind *)
+    destruct (has_bit _ _); [split; [auto with safe|discriminate]|].
+    dres (eat_colon_ws (drop 5 l)) (eat_colon_ws_safe (drop 5 l)) r1 E1. apply eat_colon_ws_len in E1. specialize (Hd 5).
+    destruct (read_kind_props r1) as [Sf L].
+    destruct (read_kind r1) as [[k r2]| | |] eqn:Ek; cbn [bind]; [|split; [auto with safe|discriminate]|destruct Sf; congruence|destruct Sf; congruence].
+    specialize (L _ _ eq_refl).
+    dres (put_raw (ev_out st) 4 (le16 k)) (put_raw_safe (ev_out st) 4 (le16 k) ltac:(rewrite len_le16; lia)) o1 E2. apply put_raw_len in E2.
+    split; [auto with safe|]. intros st' r [= <- <-]. cbn [ev_out]. split; [lia|exact E2].
+  - (* tags *)
+    destruct (has_bit _ _); [split; [auto with safe|discriminate]|].
+    dres (eat_colon_ws (drop 5 l)) (eat_colon_ws_safe (drop 5 l)) r1 E1. apply eat_colon_ws_len in E1. specialize (Hd 5).
+    destruct (N.ltb_spec (len (ev_out st)) 144); [lia|].
+    destruct (read_tags_array_props r1 (drop 144 (ev_out st))) as [Sf L].
+    destruct (read_tags_array r1 (drop 144 (ev_out st))) as [[[r2 tout] tsize]| | |] eqn:Et; cbn [bind];
+      [|split; [auto with safe|discriminate]|destruct Sf; congruence|destruct Sf; congruence].
+    destruct (L _ _ _ eq_refl) as [L1 L2].
+    pose proof (len_take_drop_glue (ev_out st) tout ltac:(lia) L2) as Hg.
+    destruct (ev_content_start st) as [cs|].
+    + destruct (read_content_props cs (take 144 (ev_out st) ++ tout) (144 + tsize)) as [Sc Lc].
+      destruct (read_content cs (take 144 (ev_out st) ++ tout) (144 + tsize)) as [[rc out2]| | |] eqn:Ec; cbn [bind];
+        [|split; [auto with safe|discriminate]|destruct Sc; congruence|destruct Sc; congruence].
+      destruct (Lc _ _ eq_refl) as [_ Lc2].
+      split; [auto with safe|]. intros st' r [= <- <-]. cbn [ev_out]. split; [lia|congruence].
+    + split; [auto with safe|]. intros st' r [= <- <-]. cbn [ev_out]. split; [lia|exact Hg].
+  - (* pubkey *)
+    destruct (has_bit _ _); [split; [auto with safe|discriminate]|].
+    dres (eat_colon_ws (drop 7 l)) (eat_colon_ws_safe (drop 7 l)) r1 E1. apply eat_colon_ws_len in E1. specialize (Hd 7).
+    destruct (read_hex_quoted_props 32 r1) as [Sf L].
+    destruct (read_hex_quoted 32 r1) as [[bs r2]| | |] eqn:Eh; cbn [bind]; [|split; [auto with safe|discriminate]|destruct Sf; congruence|destruct Sf; congruence].
+    destruct (L _ _ eq_refl) as [L1 L2].
+    dres (put_raw (ev_out st) 48 bs) (put_raw_safe (ev_out st) 48 bs ltac:(lia)) o1 E2. apply put_raw_len in E2.
+    split; [auto with safe|]. intros st' r [= <- <-]. cbn [ev_out]. split; [lia|exact E2].
+  - (* content *)
+    destruct (has_bit _ _); [split; [auto with safe|discriminate]|].
+    dres (eat_colon_ws (drop 8 l)) (eat_colon_ws_safe (drop 8 l)) r1 E1. apply eat_colon_ws_len in E1. specialize (Hd 8).
+    destruct (ev_tags_size st =? 0).
+    + dres (verify_char 34 r1) (verify_char_safe 34 r1) r2 E2. apply verify_char_len in E2.
+      dres (burn_string r2) (burn_string_safe r2) r3 E3. apply burn_string_len in E3.
+      split; [auto with safe|]. intros st' r [= <- <-]. cbn [ev_out]. split; [lia|reflexivity].
+    + destruct (read_content_props r1 (ev_out st) (144 + ev_tags_size st)) as [Sc Lc].
+      destruct (read_content r1 (ev_out st) (144 + ev_tags_size st)) as [[rc out2]| | |] eqn:Ec; cbn [bind];
+        [|split; [auto with safe|discriminate]|destruct Sc; congruence|destruct Sc; congruence].
+      destruct (Lc _ _ eq_refl) as [Lc1 Lc2].
+      split; [auto with safe|]. intros st' r [= <- <-]. cbn [ev_out]. split; [lia|exact Lc2].
+  - (* created_at *)
+    destruct (has_bit _ _); [split; [auto with safe|discriminate]|].
+    dres (eat_colon_ws (drop 11 l)) (eat_colon_ws_safe (drop 11 l)) r1 E1. apply eat_colon_ws_len in E1. specialize (Hd 11).
+    destruct (read_u64_props r1) as [Sf L].
+    destruct (read_u64 r1) as [[u r2]| | |] eqn:Ek; cbn [bind]; [|split; [auto with safe|discriminate]|destruct Sf; congruence|destruct Sf; congruence].
+    specialize (L _ _ eq_refl).
+    dres (put_raw (ev_out st) 8 (le64 u)) (put_raw_safe (ev_out st) 8 (le64 u) ltac:(rewrite len_le64; lia)) o1 E2. apply put_raw_len in E2.
+    split; [auto with safe|]. intros st' r [= <- <-]. cbn [ev_out]. split; [lia|exact E2].
+  - (* unknown member *)
+    pose proof (burn_member_safe l) as Sf.
+    destruct (burn_member l) as [r2| | |] eqn:Eb; cbn [bind]; [|split; [auto with safe|discriminate]|destruct Sf; congruence|destruct Sf; congruence].
+    apply burn_member_len in Eb. split; [auto with safe|]. intros st' r [= <- <-]. split; [lia|reflexivity].
+Qed.
+
+Lemma next_object_field_props l :
+  safe (next_object_field l) /\ (forall b r, next_object_field l = Ok (b, r) -> (length r < length l)%nat).
+Proof.
+  unfold next_object_field. pose proof (eat_ws_len l) as Hw.
+  destruct (eat_ws l) as [|c r]; [split; [auto with safe|discriminate]|]. cbn [length] in Hw.
+  destruct (c =? 125). { split; [auto with safe|]. intros b r0 [= _ <-]. lia. }
+  destruct (c =? 44). { split; [auto with safe|]. intros b r0 [= _ <-]. lia. }
+  split; [auto with safe|discriminate].
+Qed.
+
+Lemma event_members_props fuel : forall st l, (length l < fuel)%nat -> 152 <= len (ev_out st) ->
+  safe (event_members fuel st l) /\
+  (forall st' r, event_members fuel st l = Ok (st', r) -> (length r <= length l)%nat /\ len (ev_out st') = len (ev_out st)).
+Proof.
+  induction fuel as [|fuel IH]; intros st l Hf Hout; [lia|]. cbn [event_members].
+  pose proof (eat_ws_len l) as Hw.
+  dres (verify_char 34 (eat_ws l)) (verify_char_safe 34 (eat_ws l)) r1 E1. apply verify_char_len in E1.
+  destruct (event_member_props st r1 Hout) as [Sf L].
+  destruct (event_member st r1) as [[st1 r2]| | |] eqn:Em; cbn [bind]; [|split; [auto with safe|discriminate]|destruct Sf; congruence|destruct Sf; congruence].
+  destruct (L _ _ eq_refl) as [L1 L2].
+  destruct (next_object_field_props r2) as [Sn Ln].
+  destruct (next_object_field r2) as [[fin r3]| | |] eqn:En; cbn [bind]; [|split; [auto with safe|discriminate]|destruct Sn; congruence|destruct Sn; congruence].
+  specialize (Ln _ _ eq_refl).
+  destruct fin.
+  - split; [auto with safe|]. intros st' r [= <- <-]. split; [lia|exact L2].
+  - destruct (IH st1 r3 ltac:(lia) ltac:(lia)) as [S2 LL]. split; [exact S2|].
+    intros st' r H. destruct (LL _ _ H) as [A B]. split; [lia|congruence].
+Qed.
+
+(* C03 for Event::from_json: for EVERY input and EVERY output buffer - an error or a value, never a
+   panic or non-termination; consumed <= input length; the returned event lies within the buffer *)
+Theorem parse_json_event_total input out :
+  safe (parse_json_event input out) /\
+  (forall n elen out', parse_json_event input out = Ok (n, elen, out') -> n <= len input /\ len out' = len out).
+Proof.
+  unfold parse_json_event.
+  destruct (len input <? 204); [split; [auto with safe|discriminate]|].
+  destruct (N.ltb_spec (len out) 152) as [|Ho]; [split; [auto with safe|discriminate]|].
+  dres (put_raw out 6 [0; 0]) (put_raw_safe out 6 [0; 0] ltac:(unfold len at 1; cbn [length]; lia)) o0 E0.
+  apply put_raw_len in E0.
+  pose proof (eat_ws_len input) as Hw.
+  dres (verify_char 123 (eat_ws input)) (verify_char_safe 123 (eat_ws input)) r1 E1. apply verify_char_len in E1.
+  destruct (event_members_props (S (length input)) (mkEv o0 0 0 None) r1 ltac:(lia) ltac:(cbn [ev_out]; lia)) as [Sf L].
+  destruct (event_members (S (length input)) (mkEv o0 0 0 None) r1) as [[st r2]| | |] eqn:Em; cbn [bind];
+    [|split; [auto with safe|discriminate]|destruct Sf; congruence|destruct Sf; congruence].
+  destruct (L _ _ eq_refl) as [L1 L2]. cbn [ev_out] in L2.
+  destruct (ev_complete st =? 127); [|split; [auto with safe|discriminate]].
+  destruct (rd32 (ev_out st)) as [elen|] eqn:Er.
+  - split; [auto with safe|]. intros n e' out' [= <- _ <-]. split; [|congruence].
+    unfold len. lia.
+  - exfalso. assert (152 <= len (ev_out st)) by lia.
+    destruct (ev_out st) as [|a [|b [|c [|d rest]]]]; unfold len in H; cbn [length] in H; try lia. discriminate.
+Qed.
+
+(* ---------- parse_json_filter ---------- *)
+Lemma skip_to_bracket_len l : (length (skip_to_bracket l) <= length l)%nat.
+Proof. induction l as [|c r IH]; cbn [skip_to_bracket length]; auto. destruct (c =? 93); cbn [length]; lia. Qed.
+
+Definition saved (st : flst) : list bytes :=
+  (match fl_start_ids st with Some x => [x] | None => [] end) ++
+  (match fl_start_authors st with Some x => [x] | None => [] end) ++
+  (match fl_start_kinds st with Some x => [x] | None => [] end) ++ fl_start_tags st.
+Definition saved_ok (B : nat) (st : flst) : Prop := Forall (fun x => (length x <= B)%nat) (saved st).
+
+Lemma filter_member_props B st l :
+  (length l <= B)%nat -> saved_ok B st ->
+  safe (filter_member st l) /\
+  (forall st' r, filter_member st l = Ok (st', r) ->
+     (length r < length l)%nat /\ len (fl_out st') = len (fl_out st) /\ saved_ok B st').
+Proof.
+  intros HB Hs. unfold filter_member.
+  assert (Hd : forall k, (length (drop k l) <= length l)%nat) by (intros; apply drop_len_nat).
+  assert (Hsv : forall a b c d, saved_ok B (mkFl (fl_out st) a (fl_letters st) b c d (fl_start_tags st)) ->
+                saved_ok B (mkFl (fl_out st) a (fl_letters st) b c d (fl_start_tags st))) by auto.
+  repeat match goal with |- context [if starts_with ?k l then _ else _] => destruct (starts_with k l) eqn:? end.
+  - (* ids *)
+    destruct (has_bit _ _); [split; [auto with safe|discriminate]|].
+    dres (eat_colon_ws (drop 4 l)) (eat_colon_ws_safe (drop 4 l)) r1 E1. apply eat_colon_ws_len in E1. specialize (Hd 4).
+    dres (verify_char 91 r1) (verify_char_safe 91 r1) r2 E2. apply verify_char_len in E2.
+    pose proof (skip_to_bracket_len r2).
+    dres (verify_char 93 (skip_to_bracket r2)) (verify_char_safe 93 (skip_to_bracket r2)) r3 E3. apply verify_char_len in E3.
+    split; [auto with safe|]. intros st' r [= <- <-]. cbn [fl_out]. split; [lia|split; [reflexivity|]].
+    unfold saved_ok, saved in *. cbn [fl_start_ids fl_start_authors fl_start_kinds fl_start_tags].
+    destruct (fl_start_ids st); cbn [app] in *; [inversion Hs; subst|]; constructor; auto; lia.
+  - (* authors *)
+    destruct (has_bit _ _); [split; [auto with safe|discriminate]|].
+    dres (eat_colon_ws (drop 8 l)) (eat_colon_ws_safe (drop 8 l)) r1 E1. apply eat_colon_ws_len in E1. specialize (Hd 8).
+    dres (verify_char 91 r1) (verify_char_safe 91 r1) r2 E2. apply verify_char_len in E2.
+    pose proof (skip_to_bracket_len r2).
+    dres (verify_char 93 (skip_to_bracket r2)) (verify_char_safe 93 (skip_to_bracket r2)) r3 E3. apply verify_char_len in E3.
+    split; [auto with safe|]. intros st' r [= <- <-]. cbn [fl_out]. split; [lia|split; [reflexivity|]].
+    unfold saved_ok, saved in *. cbn [fl_start_ids fl_start_authors fl_start_kinds fl_start_tags].
+    apply Forall_app in Hs. destruct Hs as [H1 H2]. apply Forall_app. split; [exact H1|].
+    destruct (fl_start_authors st); cbn [app] in *; [inversion H2; subst|]; constructor; auto; lia.
+  - (* kinds *)
+    destruct (has_bit _ _); [split; [auto with safe|discriminate]|].
+    dres (eat_colon_ws (drop 6 l)) (eat_colon_ws_safe (drop 6 l)) r1 E1. apply eat_colon_ws_len in E1. specialize (Hd 6).
+    dres (verify_char 91 r1) (verify_char_safe 91 r1) r2 E2. apply verify_char_len in E2.
+    pose proof (skip_to_bracket_len r2).
+    dres (verify_char 93 (skip_to_bracket r2)) (verify_char_safe 93 (skip_to_bracket r2)) r3 E3. apply verify_char_len in E3.
+    split; [auto with safe|]. intros st' r [= <- <-]. cbn [fl_out]. split; [lia|split; [reflexivity|]].
+    unfold saved_ok, saved in *. cbn [fl_start_ids fl_start_authors fl_start_kinds fl_start_tags].
+    apply Forall_app in Hs. destruct Hs as [H1 H2]. apply Forall_app in H2. destruct H2 as [H2 H3].
+    apply Forall_app. split; [exact H1|]. apply Forall_app. split; [exact H2|].
+    destruct (fl_start_kinds st); cbn [app] in *; [inversion H3; subst|]; constructor; auto; lia.
+  - (* since *)
+    destruct (has_bit _ _); [split; [auto with safe|discriminate]|].
+    dres (eat_colon_ws (drop 6 l)) (eat_colon_ws_safe (drop 6 l)) r1 E1. apply eat_colon_ws_len in E1. specialize (Hd 6).
+    destruct (read_u64_props r1) as [Sf L].
+    destruct (read_u64 r1) as [[u r2]| | |] eqn:Ek; cbn [bind]; [|split; [auto with safe|discriminate]|destruct Sf; congruence|destruct Sf; congruence].
+    specialize (L _ _ eq_refl).
+    dres (put (fl_out st) 16 (le64 u)) (put_safe (fl_out st) 16 (le64 u)) o1 E2. apply put_len in E2.
+    split; [auto with safe|]. intros st' r [= <- <-]. cbn [with_out fl_out]. split; [lia|split; [exact E2|exact Hs]].
+  - (* until *)
+    destruct (has_bit _ _); [split; [auto with safe|discriminate]|].
+    dres (eat_colon_ws (drop 6 l)) (eat_colon_ws_safe (drop 6 l)) r1 E1. apply eat_colon_ws_len in E1. specialize (Hd 6).
+    destruct (read_u64_props r1) as [Sf L].
+    destruct (read_u64 r1) as [[u r2]| | |] eqn:Ek; cbn [bind]; [|split; [auto with safe|discriminate]|destruct Sf; congruence|destruct Sf; congruence].
+    specialize (L _ _ eq_refl).
+    dres (put (fl_out st) 24 (le64 u)) (put_safe (fl_out st) 24 (le64 u)) o1 E2. apply put_len in E2.
+    split; [auto with safe|]. intros st' r [= <- <-]. cbn [with_out fl_out]. split; [lia|split; [exact E2|exact Hs]].
+  - (* limit *)
+    destruct (has_bit _ _); [split; [auto with safe|discriminate]|].
+    dres (eat_colon_ws (drop 6 l)) (eat_colon_ws_safe (drop 6 l)) r1 E1. apply eat_colon_ws_len in E1. specialize (Hd 6).
+    destruct (read_u64_props r1) as [Sf L].
+    destruct (read_u64 r1) as [[u r2]| | |] eqn:Ek; cbn [bind]; [|split; [auto with safe|discriminate]|destruct Sf; congruence|destruct Sf; congruence].
+    specialize (L _ _ eq_refl).
+    dres (put (fl_out st) 12 (le32 (N.min u 4294967295))) (put_safe (fl_out st) 12 (le32 (N.min u 4294967295))) o1 E2. apply put_len in E2.
+    split; [auto with safe|]. intros st' r [= <- <-]. cbn [with_out fl_out]. split; [lia|split; [exact E2|exact Hs]].
+  - (* tag field or unknown member *)
+    assert (Hunk : safe (r2 <- burn_member l ;; Ok (st, r2)) /\
+       (forall st' r, (r2 <- burn_member l ;; Ok (st, r2)) = Ok (st', r) ->
+          (length r < length l)%nat /\ len (fl_out st') = len (fl_out st) /\ saved_ok B st')).
+    { pose proof (burn_member_safe l) as Sf.
+      destruct (burn_member l) as [r2| | |] eqn:Eb; cbn [bind]; [|split; [auto with safe|discriminate]|destruct Sf; congruence|destruct Sf; congruence].
+      apply burn_member_len in Eb. split; [auto with safe|]. intros st' r [= <- <-]. split; [lia|split; [reflexivity|exact Hs]]. }
+    destruct l as [|h [|letter [|q r]]]; try exact Hunk.
+    destruct ((h =? 35) && is_letter letter && (q =? 34)); [|exact Hunk].
+    destruct (existsb _ _); [split; [auto with safe|discriminate]|].
+    dres (eat_colon_ws r) (eat_colon_ws_safe r) r1 E1. apply eat_colon_ws_len in E1.
+    dres (verify_char 91 r1) (verify_char_safe 91 r1) r2 E2. apply verify_char_len in E2.
+    cbn [length] in *.
+    destruct (proj1 (proj2 (burn_all_props (burn_fuel (h :: letter :: q :: r)))) 0 r2 ltac:(unfold burn_fuel; cbn [length]; lia)) as [Sf L].
+    dres (burn_array (burn_fuel (h :: letter :: q :: r)) 0 r2) Sf r3 E3.
+    specialize (L r3 eq_refl).
+    split; [auto with safe|]. intros st' r0 [= <- <-]. cbn [fl_out length]. split; [lia|split; [reflexivity|]].
+    unfold saved_ok, saved in *. cbn [fl_start_ids fl_start_authors fl_start_kinds fl_start_tags].
+    rewrite !app_assoc. apply Forall_app. split; [rewrite <- !app_assoc; exact Hs|].
+    constructor; [cbn [length]; lia|constructor].
+Qed.
+
+Lemma filter_members_props B fuel : forall st l, (length l < fuel)%nat -> (length l <= B)%nat -> saved_ok B st ->
+  safe (filter_members fuel st l) /\
+  (forall st' r, filter_members fuel st l = Ok (st', r) ->
+     (length r <= length l)%nat /\ len (fl_out st') = len (fl_out st) /\ saved_ok B st').
+Proof.
+  induction fuel as [|fuel IH]; intros st l Hf HB Hs; [lia|]. cbn [filter_members].
+  pose proof (eat_ws_commas_len l) as Hw.
+  destruct (eat_ws_commas l) as [|c l1] eqn:El; cbn [peek bind]; [split; [auto with safe|discriminate]|]. cbn [length] in Hw.
+  destruct (c =? 125). { cbn [tl]. split; [auto with safe|]. intros st' r [= <- <-]. split; [lia|split; [reflexivity|exact Hs]]. }
+  dres (verify_char 34 (c :: l1)) (verify_char_safe 34 (c :: l1)) r1 E1. apply verify_char_len in E1. cbn [length] in E1.
+  destruct (filter_member_props B st r1 ltac:(lia) Hs) as [Sf L].
+  destruct (filter_member st r1) as [[st1 r2]| | |] eqn:Em; cbn [bind]; [|split; [auto with safe|discriminate]|destruct Sf; congruence|destruct Sf; congruence].
+  destruct (L _ _ eq_refl) as (L1 & L2 & L3).
+  destruct (IH st1 r2 ltac:(lia) ltac:(lia) L3) as [S2 LL]. split; [exact S2|].
+  intros st' r H. destruct (LL _ _ H) as (A & Bq & Cq). split; [lia|split; [congruence|exact Cq]].
+Qed.
+
+Lemma copy_hex32_props fuel : forall l out endp num, (length l < fuel)%nat ->
+  safe (copy_hex32 fuel l out endp num) /\
+  (forall out' e n, copy_hex32 fuel l out endp num = Ok (out', e, n) -> len out' = len out).
+Proof.
+  induction fuel as [|fuel IH]; intros l out endp num Hf; [lia|]. cbn [copy_hex32].
+  pose proof (eat_ws_commas_len l) as Hw.
+  destruct (eat_ws_commas l) as [|c l1] eqn:El; cbn [peek bind]; [split; [auto with safe|discriminate]|]. cbn [length] in Hw.
+  destruct (c =? 93). { split; [auto with safe|]. intros out' e n [= <- _ _]. reflexivity. }
+  destruct (len out - endp <? 32); [split; [auto with safe|discriminate]|].
+  destruct (read_hex_quoted_props 32 (c :: l1)) as [Sf L].
+  destruct (read_hex_quoted 32 (c :: l1)) as [[bs r]| | |] eqn:Eh; cbn [bind]; [|split; [auto with safe|discriminate]|destruct Sf; congruence|destruct Sf; congruence].
+  destruct (L _ _ eq_refl) as [L1 _]. cbn [length] in L1.
+  dres (put out endp bs) (put_safe out endp bs) o1 E1. apply put_len in E1.
+  destruct (65535 <=? num); [split; [auto with safe|discriminate]|].
+  destruct (IH r o1 (endp + 32) (num + 1) ltac:(lia)) as [S2 LL]. split; [exact S2|].
+  intros out' e n H. rewrite (LL _ _ _ H). exact E1.
+Qed.
+Lemma copy_kinds_props fuel : forall l out endp num, (length l < fuel)%nat ->
+  safe (copy_kinds fuel l out endp num) /\
+  (forall out' e n, copy_kinds fuel l out endp num = Ok (out', e, n) -> len out' = len out).
+Proof.
+  induction fuel as [|fuel IH]; intros l out endp num Hf; [lia|]. cbn [copy_kinds].
+  pose proof (eat_ws_commas_len l) as Hw.
+  destruct (eat_ws_commas l) as [|c l1] eqn:El; cbn [peek bind]; [split; [auto with safe|discriminate]|]. cbn [length] in Hw.
+  destruct (c =? 93). { split; [auto with safe|]. intros out' e n [= <- _ _]. reflexivity. }
+  destruct (read_u64_props (c :: l1)) as [Sf L].
+  destruct (read_u64 (c :: l1)) as [[u r]| | |] eqn:Eh; cbn [bind]; [|split; [auto with safe|discriminate]|destruct Sf; congruence|destruct Sf; congruence].
+  specialize (L _ _ eq_refl). cbn [length] in L.
+  destruct (65535 <? u); [split; [auto with safe|discriminate]|].
+  dres (put out endp (le16 u)) (put_safe out endp (le16 u)) o1 E1. apply put_len in E1.
+  destruct (65535 <=? num); [split; [auto with safe|discriminate]|].
+  destruct (IH r o1 (endp + 2) (num + 1) ltac:(lia)) as [S2 LL]. split; [exact S2|].
+  intros out' e n H. rewrite (LL _ _ _ H). exact E1.
+Qed.
+Lemma copy_tag_values_props fuel : forall l out endp count, (length l < fuel)%nat ->
+  safe (copy_tag_values fuel l out endp count) /\
+  (forall out' e n, copy_tag_values fuel l out endp count = Ok (out', e, n) -> len out' = len out).
+Proof.
+  induction fuel as [|fuel IH]; intros l out endp count Hf; [lia|]. cbn [copy_tag_values].
+  pose proof (eat_ws_commas_len l) as Hw.
+  destruct (eat_ws_commas l) as [|c l1] eqn:El; cbn [peek bind]; [split; [auto with safe|discriminate]|]. cbn [length] in Hw.
+  destruct (c =? 93). { split; [auto with safe|]. intros out' e n [= <- _ _]. reflexivity. }
+  dres (verify_char 34 (c :: l1)) (verify_char_safe 34 (c :: l1)) r1 E1. apply verify_char_len in E1. cbn [length] in E1.
+  destruct (len out <? endp + 2); [split; [auto with safe|discriminate]|].
+  destruct (json_unescape r1 (len out - (endp + 2))) as [[inlen s]| | |] eqn:Eu; cbn [bind].
+  2: split; [auto with safe|discriminate].
+  2-3: exfalso; pose proof (unescape_safe r1 (len out - (endp + 2))) as [? ?]; congruence.
+  dres (put out (endp + 2) s) (put_safe out (endp + 2) s) o1 E2. apply put_len in E2.
+  dres (put o1 endp (le16 (len s))) (put_safe o1 endp (le16 (len s))) o2 E3. apply put_len in E3.
+  dres (verify_char 34 (drop inlen r1)) (verify_char_safe 34 (drop inlen r1)) r2 E4. apply verify_char_len in E4.
+  pose proof (drop_len_nat inlen r1) as Hdl.
+  destruct (IH r2 o2 (endp + 2 + len s) (count + 1) ltac:(lia)) as [S2 LL]. split; [exact S2|].
+  intros out' e n Hx. rewrite (LL _ _ _ Hx). congruence.
+Qed.
+
+Lemma copy_tag_fields_props starts : forall w out wts endp,
+  safe (copy_tag_fields starts w out wts endp) /\
+  (forall out' e, copy_tag_fields starts w out wts endp = Ok (out', e) -> len out' = len out).
+Proof.
+  induction starts as [|s rest IH]; intros w out wts endp; cbn [copy_tag_fields].
+  - split; [auto with safe|]. intros out' e [= <- _]. reflexivity.
+  - dres (put out (wts + 4 + 2 * w) (le16 (endp - wts))) (put_safe out (wts + 4 + 2 * w) (le16 (endp - wts))) o1 E1. apply put_len in E1.
+    destruct s as [|letter s']; cbn [peek bind]; [split; [auto with safe|discriminate]|].
+    dres (put o1 (endp + 2) (le16 1)) (put_safe o1 (endp + 2) (le16 1)) o2 E2. apply put_len in E2.
+    destruct (N.ltb_spec (len o2) (endp + 2 + 3)) as [|Hl]; [split; [auto with safe|discriminate]|].
+    dres (put_raw o2 (endp + 2 + 2) [letter]) (put_raw_safe o2 (endp + 2 + 2) [letter] ltac:(unfold len at 1; cbn [length]; lia)) o3 E3.
+    apply put_raw_len in E3. cbn [tl].
+    dres (verify_char 34 s') (verify_char_safe 34 s') r1 E4.
+    dres (eat_colon_ws r1) (eat_colon_ws_safe r1) r2 E5.
+    dres (verify_char 91 r2) (verify_char_safe 91 r2) r3 E6.
+    apply verify_char_len in E4. apply eat_colon_ws_len in E5. apply verify_char_len in E6.
+    destruct (copy_tag_values_props (S (length (letter :: s'))) r3 o3 (endp + 2 + 3) 1 ltac:(cbn [length]; lia)) as [Sf L].
+    destruct (copy_tag_values (S (length (letter :: s'))) r3 o3 (endp + 2 + 3) 1) as [[[o4 e4] cnt]| | |] eqn:Ev; cbn [bind];
+      [|split; [auto with safe|discriminate]|destruct Sf; congruence|destruct Sf; congruence].
+    specialize (L _ _ _ eq_refl).
+    dres (put o4 endp (le16 cnt)) (put_safe o4 endp (le16 cnt)) o5 E7. apply put_len in E7.
+    destruct (IH (w + 1) o5 wts e4) as [S2 LL]. split; [exact S2|].
+    intros out' e H. rewrite (LL _ _ H). congruence.
+Qed.
+
+(* C03 for Filter::from_json *)
+Theorem parse_json_filter_total input out :
+  safe (parse_json_filter input out) /\
+  (forall n flen out', parse_json_filter input out = Ok (n, flen, out') -> n <= len input /\ len out' = len out).
+Proof.
+  unfold parse_json_filter.
+  destruct (len input <? 2); [split; [auto with safe|discriminate]|].
+  dres (put out 0 filter_header) (put_safe out 0 filter_header) o0 E0. apply put_len in E0.
+  pose proof (eat_ws_len input) as Hw.
+  dres (verify_char 123 (eat_ws input)) (verify_char_safe 123 (eat_ws input)) r1 E1. apply verify_char_len in E1.
+  destruct (filter_members_props (length input) (S (length input)) (mkFl o0 0 [] None None None []) r1 ltac:(lia) ltac:(lia) ltac:(constructor)) as [Sf L].
+  destruct (filter_members (S (length input)) (mkFl o0 0 [] None None None []) r1) as [[st rfin]| | |] eqn:Em; cbn [bind];
+    [|split; [auto with safe|discriminate]|destruct Sf; congruence|destruct Sf; congruence].
+  destruct (L _ _ eq_refl) as (L1 & L2 & L3). cbn [fl_out] in L2.
+  unfold saved_ok, saved in L3.
+  apply Forall_app in L3. destruct L3 as [Hi L3]. apply Forall_app in L3. destruct L3 as [Ha L3]. apply Forall_app in L3. destruct L3 as [Hk Ht].
+  (* ids *)
+  assert (P1 : safe ((match fl_start_ids st with
+                   | Some s => '(o, e, n) <- copy_hex32 (S (length input)) s (fl_out st) 32 0 ;; o' <- put o 4 (le16 n) ;; Ok (o', e, n)
+                   | None => Ok (fl_out st, 32, 0) end)) /\
+               forall o e n, (match fl_start_ids st with
+                   | Some s => '(o, e, n) <- copy_hex32 (S (length input)) s (fl_out st) 32 0 ;; o' <- put o 4 (le16 n) ;; Ok (o', e, n)
+                   | None => Ok (fl_out st, 32, 0) end) = Ok (o, e, n) -> len o = len (fl_out st)).
+  { destruct (fl_start_ids st) as [s|]; [|split; [auto with safe|intros o e n [= <- _ _]; reflexivity]].
+    inversion Hi as [|? ? Hlen _]; subst.
+    destruct (copy_hex32_props (S (length input)) s (fl_out st) 32 0 ltac:(lia)) as [Sc Lc].
+    destruct (copy_hex32 (S (length input)) s (fl_out st) 32 0) as [[[o e] n]| | |] eqn:Ec; cbn [bind];
+      [|split; [auto with safe|discriminate]|destruct Sc; congruence|destruct Sc; congruence].
+    specialize (Lc _ _ _ eq_refl).
+    dres (put o 4 (le16 n)) (put_safe o 4 (le16 n)) o' Ep. apply put_len in Ep.
+    split; [auto with safe|]. intros o2 e2 n2 [= <- _ _]. congruence. }
+  destruct P1 as [S1 Q1].
+  match goal with |- context [bind ?X _] => destruct X as [[[o1 e1] n1]| | |] eqn:X1 end; cbn [bind];
+    [|split; [auto with safe|discriminate]|destruct S1; congruence|destruct S1; congruence].
+  specialize (Q1 _ _ _ eq_refl).
+  (* authors *)
+  assert (P2 : safe ((match fl_start_authors st with
+                   | Some s => '(o, e, n) <- copy_hex32 (S (length input)) s o1 e1 0 ;; o' <- put o 6 (le16 n) ;; Ok (o', e, n)
+                   | None => Ok (o1, e1, 0) end)) /\
+               forall o e n, (match fl_start_authors st with
+                   | Some s => '(o, e, n) <- copy_hex32 (S (length input)) s o1 e1 0 ;; o' <- put o 6 (le16 n) ;; Ok (o', e, n)
+                   | None => Ok (o1, e1, 0) end) = Ok (o, e, n) -> len o = len o1).
+  { destruct (fl_start_authors st) as [s|]; [|split; [auto with safe|intros o e n [= <- _ _]; reflexivity]].
+    inversion Ha as [|? ? Hlen _]; subst.
+    destruct (copy_hex32_props (S (length input)) s o1 e1 0 ltac:(lia)) as [Sc Lc].
+    destruct (copy_hex32 (S (length input)) s o1 e1 0) as [[[o e] n]| | |] eqn:Ec; cbn [bind];
+      [|split; [auto with safe|discriminate]|destruct Sc; congruence|destruct Sc; congruence].
+    specialize (Lc _ _ _ eq_refl).
+    dres (put o 6 (le16 n)) (put_safe o 6 (le16 n)) o' Ep. apply put_len in Ep.
+    split; [auto with safe|]. intros o2' e2' n2' [= <- _ _]. congruence. }
+  destruct P2 as [S2 Q2].
+  match goal with |- context [bind ?X _] => destruct X as [[[o2 e2] n2]| | |] eqn:X2 end; cbn [bind];
+    [|split; [auto with safe|discriminate]|destruct S2; congruence|destruct S2; congruence].
+  specialize (Q2 _ _ _ eq_refl).
+  (* kinds *)
+  assert (P3 : safe ((match fl_start_kinds st with
+                   | Some s => '(o, e, n) <- copy_kinds (S (length input)) s o2 e2 0 ;; o' <- put o 8 (le16 n) ;; Ok (o', e, n)
+                   | None => Ok (o2, e2, 0) end)) /\
+               forall o e n, (match fl_start_kinds st with
+                   | Some s => '(o, e, n) <- copy_kinds (S (length input)) s o2 e2 0 ;; o' <- put o 8 (le16 n) ;; Ok (o', e, n)
+                   | None => Ok (o2, e2, 0) end) = Ok (o, e, n) -> len o = len o2).
+  { destruct (fl_start_kinds st) as [s|]; [|split; [auto with safe|intros o e n [= <- _ _]; reflexivity]].
+    inversion Hk as [|? ? Hlen _]; subst.
+    destruct (copy_kinds_props (S (length input)) s o2 e2 0 ltac:(lia)) as [Sc Lc].
+    destruct (copy_kinds (S (length input)) s o2 e2 0) as [[[o e] n]| | |] eqn:Ec; cbn [bind];
+      [|split; [auto with safe|discriminate]|destruct Sc; congruence|destruct Sc; congruence].
+    specialize (Lc _ _ _ eq_refl).
+    dres (put o 8 (le16 n)) (put_safe o 8 (le16 n)) o' Ep. apply put_len in Ep.
+    split; [auto with safe|]. intros o3' e3' n3' [= <- _ _]. congruence. }
+  destruct P3 as [S3 Q3].
+  match goal with |- context [bind ?X _] => destruct X as [[[o3 e3] n3]| | |] eqn:X3 end; cbn [bind];
+    [|split; [auto with safe|discriminate]|destruct S3; congruence|destruct S3; congruence].
+  specialize (Q3 _ _ _ eq_refl).
+  cbv zeta.
+  dres (put o3 (e3 + 2) (le16 (len (fl_start_tags st)))) (put_safe o3 (e3 + 2) (le16 (len (fl_start_tags st)))) o4 E4. apply put_len in E4.
+  destruct (copy_tag_fields_props (fl_start_tags st) 0 o4 e3 (e3 + 4 + 2 * len (fl_start_tags st))) as [St Lt].
+  destruct (copy_tag_fields (fl_start_tags st) 0 o4 e3 (e3 + 4 + 2 * len (fl_start_tags st))) as [[o5 e5]| | |] eqn:Et; cbn [bind];
+    [|split; [auto with safe|discriminate]|destruct St; congruence|destruct St; congruence].
+  specialize (Lt _ _ eq_refl).
+  destruct (65535 <? e5 - e3); [split; [auto with safe|discriminate]|].
+  dres (put o5 e3 (le16 (e5 - e3))) (put_safe o5 e3 (le16 (e5 - e3))) o6 E6. apply put_len in E6.
+  destruct (4294967295 <? e5); [split; [auto with safe|discriminate]|].
+  dres (put o6 0 (le32 e5)) (put_safe o6 0 (le32 e5)) o7 E7. apply put_len in E7.
+  split; [auto with safe|]. intros n fl out' [= <- _ <-]. split; [unfold len; lia|congruence].
+Qed.
